@@ -1,5 +1,7 @@
 import Driver.StoreOps
 import Driver.ExecOps
+import Driver.CodecOps
+import Driver.ChecksumOps
 open Lean Driver
 
 def dispatch (j : Json) : P Json := do
@@ -8,6 +10,10 @@ def dispatch (j : Json) : P Json := do
   | "slave" => opSlave j
   | "sctx" => opServerCtx j
   | "exec" => opExec j
+  | "codec" => opCodec j
+  | "crc" => opCrc j
+  | "lrc" => opLrc j
+  | "crctable" => opCrcTable j
   | o => throw s!"bad-op {o}"
 
 def handle (line : String) : String :=
